@@ -24,6 +24,7 @@ GRAPHS = {
     "neighbour-outside": (["b", "a"], [("a", "x"), ("a", "b")], [], ["x"]),
     "sink-only": (["a", "b"], [("a", "b")], [], []),
     "three-neighbours": (["d", "a", "b", "c"], [("a", "d"), ("a", "c"), ("a", "b")], [], []),
+    "incoming-from-outside": (["a", "b"], [("x", "a"), ("a", "b")], [], ["x"]),     # with value equality: x == a, and x only points AT a
     "outside+tied-keys": (["a", "c", "b"], [("a", "c"), ("a", "x"), ("a", "b"), ("b", "c"), ("b", "x")], [], ["x"]),
 }
 SAME_LABEL = {"b": "c"}   # rfunc variant "same-label": b is rendered exactly like c
